@@ -27,6 +27,11 @@ class Body(object):
         self._content_data = None
 
     def __getattr__(self, key):
+        if key == 'file':
+            # Not initialised yet (copy.deepcopy() probes attributes of
+            # the new instance before it has any).
+            raise AttributeError(key)
+
         return getattr(self.file, key)
 
     def content(self):
